@@ -117,6 +117,16 @@ func (env *specEnv) resolveType(s string) types.Type {
 				}
 			}
 		}
+		// a package imported by any module package (e.g. time.Time in a library-level ghost)
+		for _, pk := range env.vc.P.Pkgs {
+			for _, imp := range pk.Types.Imports() {
+				if imp.Name() == pn {
+					if o, ok := imp.Scope().Lookup(tn).(*types.TypeName); ok {
+						return o.Type()
+					}
+				}
+			}
+		}
 		return nil
 	}
 	if env.pkg != nil {
@@ -1006,6 +1016,17 @@ func (env *specEnv) callGhost(g *GhostFunc, x SCall) (Val, types.Type) {
 	for i := range g.Params {
 		t, ok := avals[i].(Term)
 		if !ok {
+			// a struct value handed to an UNINTERPRETED ghost is passed field by field
+			if sv, isS := avals[i].(*StructV); isS && g.Body == nil {
+				leaves, okL := flattenStruct(sv)
+				if okL {
+					for _, lf := range leaves {
+						sorts = append(sorts, lf.Sort)
+						ats = append(ats, lf)
+					}
+					continue
+				}
+			}
 			env.fail("ghost %s: struct argument to recursive ghost", g.Name)
 			return IntLit(0), resT
 		}
@@ -1237,4 +1258,24 @@ func (vc *VC) emitAxiomsFor(name string, pkg *types.Package) {
 		env := &specEnv{vc: vc, st: &State{pc: True, vars: map[*types.Var]Val{}, heaps: map[string]Term{}, alloc: Term{"alloc0", SInt}}, pkg: vc.pkgByPath(ax.Pkg), names: map[string]binding{}}
 		vc.assumeAxiom(env.evalBool(ax.Cl.Expr), "g!"+name)
 	}
+}
+
+// flattenStruct lists the scalar leaves of a struct value in field order.
+func flattenStruct(sv *StructV) ([]Term, bool) {
+	var out []Term
+	for _, f := range sv.F {
+		switch x := f.(type) {
+		case Term:
+			out = append(out, x)
+		case *StructV:
+			sub, ok := flattenStruct(x)
+			if !ok {
+				return nil, false
+			}
+			out = append(out, sub...)
+		default:
+			return nil, false
+		}
+	}
+	return out, true
 }
